@@ -1898,3 +1898,77 @@ M('C12','onvariant-handle-not-idempotent','ds/priorityqueue/priorityqueue.go',""
 M('C09','onvariant-freefunc-size-always','ads/map_impl.go',"""	if !has {
 		if err := adjustSize(m.size, 1); err != nil {""","""	if has || !has {
 		if err := adjustSize(m.size, 1); err != nil {""",'size/accounting', base='C09-15')
+
+M('C05','onvariant-merged-consume-under-lock','kvstore/mapdb/synced_map.go',"""			copiedElements[key] = snapshotValue(value)
+		}
+	}
+	s.RUnlock()
+""","""			copiedElements[key] = snapshotValue(value)
+		}
+	}
+	defer s.RUnlock()
+""",'lock/no-callback-under-lock', base='C05-14')
+M('C05','onvariant-renamed-mutex-set-nolock','kvstore/mapdb/synced_map.go',"""func (s *syncedKVMap) set(key, value []byte) {
+	s.mutex.Lock()
+	defer s.mutex.Unlock()
+""","""func (s *syncedKVMap) set(key, value []byte) {
+""",'lock/guarded-by', base='C05-16')
+M('C17','onvariant-freefunc-register-after-block','runtime/syncutils/dagmutex.go',"""	d.Mutex.Lock()
+	mutex := registerMutex(d, id)
+	d.Mutex.Unlock()
+
+	mutex.Lock()
+}""","""	d.Mutex.Lock()
+	mutex, _ := d.mutexes.Get(id)
+	d.Mutex.Unlock()
+
+	mutex.Lock()
+	d.Mutex.Lock()
+	registerMutex(d, id)
+	d.Mutex.Unlock()
+}""",'dag/register-before-block', base='C17-16')
+M('C17','onvariant-freefunc-register-nolock','runtime/syncutils/dagmutex.go',"""	d.Mutex.Lock()
+	mutex := registerMutex(d, id)
+	d.Mutex.Unlock()
+
+	mutex.Lock()
+}""","""	mutex := registerMutex(d, id)
+
+	mutex.Lock()
+}""",'lock/guarded-by', base='C17-16')
+M('C10','onvariant-shared-body-no-membership','ds/list_impl.go',"""	if positionTyped.list.Load() != l {
+		return nil
+	}
+
+	at := positionTyped""","""	at := positionTyped""",'handle/validated', base='C10-14')
+M('C11','onvariant-direction-flag-swapped-start','ds/orderedmap/orderedmap.go',"""	if reverse {
+		currentEntry = o.tail
+	} else {
+		currentEntry = o.head
+	}""","""	if !reverse {
+		currentEntry = o.tail
+	} else {
+		currentEntry = o.head
+	}""",'omap/iteration-order', base='C15-16')
+M('C03','onvariant-validator-flag-inverted','serializer/serializable.go',"""			case cmp == 0 && rejectDuplicates:""","""			case cmp == 0 && !rejectDuplicates:""",'cmp/lexical', base='C03-16')
+M('C14','onvariant-counterinput-forgets','ds/reactive/counter_impl.go',"""			i.conditionWasTrue = conditionIsTrue
+""","""""",'counter/condition-memory', base='C14-15')
+M('C07','onvariant-single-exit-returns-next','kvstore/sequence.go',"""		val = seq.next
+		seq.next++
+	}
+""","""		seq.next++
+		val = seq.next
+	}
+""",'seq/', base='C07-15')
+M('C07','onvariant-append-encodes-next','kvstore/sequence.go',"""	mark := binary.BigEndian.AppendUint64(nil, reserved)""","""	mark := binary.BigEndian.AppendUint64(nil, seq.next)""",'seq/', base='C07-16')
+M('C14','onvariant-splice-no-decrement','ds/reactive/sorted_set_impl.go',"""		for _, shiftedElement := range s.sortedElements[deletedElement.index:] {
+			shiftedElement.index--
+		}
+""","""""",'sorted/slot-index-coupled', base='C14-14')
+M('C14','onvariant-splice-decrement-from-next','ds/reactive/sorted_set_impl.go',"""		for _, shiftedElement := range s.sortedElements[deletedElement.index:] {""","""		for _, shiftedElement := range s.sortedElements[deletedElement.index+1:] {""",'sorted/slot-index-coupled', base='C14-14')
+M('C18','onvariant-compare-swapped','runtime/timed/heapkey.go',"""	return time.Time(t).Compare(time.Time(other))""","""	return time.Time(other).Compare(time.Time(t))""",'cmp/direction', base='C18-16')
+M('C01','onvariant-sortfunc-removed','serializer/serializer.go',"""		slices.SortFunc(data, bytes.Compare)
+""","""		_ = slices.Contains[[]int]
+""",'determinism/sort-before-write', base='C01-13')
+M('C04','onvariant-sortfunc-backward-ascending','kvstore/utils/utils.go',"""			return strings.Compare(b, a)""","""			return strings.Compare(a, b)""",'order/sortslice', base='C04-13')
+M('C12','onvariant-enqueue-push-front','ds/walker/walker.go',"""	w.enqueue(nextElement, w.stack.PushBack)""","""	w.enqueue(nextElement, w.stack.PushFront)""",'bulk/no-early-exit', base='C12-15')
